@@ -206,3 +206,48 @@ Proof.
     + intros d. bal_rw. rewrite Hdo. ledger.
     + repeat split; reflexivity.
 Qed.
+
+Lemma close_effect c s f a e id ie s' :
+  ProdsExist s -> VWf s ->
+  msg_close c s f a e id ie = Ok s' ->
+  exists v0 ep, find_v (vaults s) id = Some v0 /\ get_ep c e = Some ep /\ v_pair v0 = e /\ v_app v0 = a /\ v_owner v0 = f /\ 0 <= ie /\
+    effect c s s' f (BDel v0) (v_int v0 + ie + v_fee v0).
+Proof.
+  intros PE W H. unfold msg_close in H. cbv zeta in H.
+  exec_checks H. exec_accrue H.
+  pose proof (get_ep_id _ _ _ M) as Hid. pose proof (find_v_id _ _ _ M0) as Hvid.
+  pose proof (prods_exist_v _ _ _ PE M0) as Hpf. pose proof (vwf_found _ _ _ W M0) as (W1 & W2 & W3 & W4).
+  bool_norm.
+  replace (v_app v) with a in Hpf by congruence. replace (v_pair v) with e in Hpf by congruence.
+  pose proof (denom_in_ep _ _ _ M) as Hdi. pose proof (denom_out_ep _ _ _ M) as Hdo.
+  replace e with (v_pair v) in Hdi, Hdo by congruence.
+  bc_simpl.
+  do 6 exec1 H. injection H as <-.
+  apply csend_spec in E. destruct E as (b1 & -> & Hb1).
+  apply update_collector_spec in E0. destruct E0 as [Hfee ->].
+  apply csend_spec in E1. destruct E1 as (b2 & -> & Hb2).
+  apply csend_spec in E2. destruct E2 as (b3 & -> & Hb3).
+  apply cburn_spec in E3. destruct E3 as (b4 & sp4 & -> & Hb4 & Hs4).
+  apply csend_spec in E4. destruct E4 as (b5 & -> & Hb5).
+  ssimpl.
+  match goal with |- context [upd_coll ?st ?a0 ?p0 ?m ?ad] =>
+    destruct (upd_coll_spec st a0 p0 m ad Hpf) as (f1 & -> & Hf11 & Hf12 & Hf13 & Hf14) end.
+  match goal with |- context [upd_mint ?st ?a0 ?p0 ?m ?ad] =>
+    assert (Hpf2 : pfound st a0 p0 = true) by (prod_rw; rewrite <- pfound_f; exact Hpf);
+    destruct (upd_mint_spec st a0 p0 m ad Hpf2) as (f2 & -> & Hf21 & Hf22 & Hf23 & Hf24) end.
+  match goal with |- context [prod_del_id ?st ?a0 ?p0 ?m] =>
+    assert (Hpf3 : pfound st a0 p0 = true) by (prod_rw; rewrite <- pfound_f; exact Hpf);
+    destruct (prod_del_id_spec st a0 p0 m Hpf3) as (f3 & -> & Hf31 & Hf32 & Hf33 & Hf34) end.
+  ssimpl. rewrite del_put by reflexivity.
+  exists v, e0. repeat (split; [first [reflexivity|congruence|lia]|]).
+  constructor; ssimpl; bc_simpl; try reflexivity.
+  - congruence.
+  - intros a' p'. prod_rw. rewrite andb_false_r, orb_false_r. reflexivity.
+  - intros a' p'. prod_rw. eqb_cases.
+  - intros a' p'. prod_rw. eqb_cases.
+  - intros a' p'. prod_rw. eqb_cases.
+  - lia.
+  - intros a' x. bal_rw. rewrite Hdi, Hdo. ledger.
+  - intros d. bal_rw. rewrite Hdo. ledger.
+  - repeat split; reflexivity.
+Qed.
